@@ -83,7 +83,11 @@ MergeObj(a, b, env) ==
   LET fromA == [i \in DOMAIN a.ps |->
                  LET p == a.ps[i] IN
                  IF HasProp(b, p.key)
-                 THEN LET q == b.ps[PropIdx(b, p.key)] IN Prop(p.key, Inter(<<p.ty, q.ty>>), p.opt /\ q.opt)
+                 THEN LET q == b.ps[PropIdx(b, p.key)]
+                          \* an optional property also admits null / undefined; against a required side that part takes part
+                          \* in the intersection (as the members taken one by one do)
+                          Side(x, y) == IF x.opt /\ ~y.opt THEN Uni(<<x.ty, TNull, TUndef>>) ELSE x.ty
+                      IN Prop(p.key, Inter(<<Side(p, q), Side(q, p)>>), p.opt /\ q.opt)
                  ELSE IF KeyStaticallyIn(p.key, b, env) THEN UnderIx(p, b.ix[1].vt)
                  ELSE p]
       onlyB == SelectSeq(b.ps, LAMBDA q : ~HasProp(a, q.key))
